@@ -174,6 +174,19 @@ def step [DecidableEq ρ] (B : Backend σ κ γ ρ) (sched : List (List γ)) (t 
       | .parseErr => (t, s, .err .parse)
       | .protoErr => (t, s, .err .protocol)
 
+/-- the machine after the proposed `fix:` commit (branch fixes-txn-s3): a protocol error between
+    MULTI and EXEC flags the transaction, as an arity error does (`transaction_errors = true` in
+    the `CommandResult::ParseError` branch of `run`); everything else is `step` -/
+def stepFixed [DecidableEq ρ] (B : Backend σ κ γ ρ) (sched : List (List γ)) (t : ConnTxn κ γ ρ) (s : σ) :
+    Input κ γ → ConnTxn κ γ ρ × σ × Reply ρ
+  | .protoErr => if t.inTxn then ({ t with errors := true }, s, .err .protocol) else (t, s, .err .protocol)
+  | i => step B sched t s i
+
+/-- `protoFlags = false`: the current tree; `true`: the tree with the proposed fix -/
+def stepWith [DecidableEq ρ] (protoFlags : Bool) (B : Backend σ κ γ ρ) (sched : List (List γ))
+    (t : ConnTxn κ γ ρ) (s : σ) (i : Input κ γ) : ConnTxn κ γ ρ × σ × Reply ρ :=
+  if protoFlags then stepFixed B sched t s i else step B sched t s i
+
 /-- a trace of the modelled connection: each input with the schedule of the other clients
     during it -/
 def run [DecidableEq ρ] (B : Backend σ κ γ ρ) :
